@@ -488,7 +488,7 @@ PROPS = {
                      "Xet.Shard.C11_flush_mem_empty",
                      "Xet.Dedup.C11_defrag_warmup", "Xet.Dedup.C11_defrag_long_run_accepted", "Xet.Dedup.C11_defrag_short_run_rejected",
                      "Xet.Dedup.C11_repeat_free", "Xet.Dedup.C11_repeat_free_real_estimator", "Xet.Dedup.C11_repeat_free_no_defrag",
-                     "Xet.Dedup.C11_repeat_needs_answers"],
+                     "Xet.Dedup.C11_repeat_needs_answers", "Xet.Dedup.firstPass_covered", "Xet.Dedup.C11_repeat_free_lookup"],
         "suites": ["session", "manager", "session_conc", "deduper"],
         "level_text": "For every history, legal or not: every xorb handed to the store (cut mid-file or from the session aggregator, incl. the final "
                       "one) has its CAS info registered with the session shard, and every chunk of it is in that info. Lookup completeness of ShardFileManager "
@@ -499,7 +499,9 @@ PROPS = {
                       "is proved on the client side (C11_repeat_free: for every number of files, interleaving and partition into process_chunks calls, if "
                       "every deduped_blocks slot the deduper consults holds an answer and the defrag procedure accepts those runs - for the real estimator: "
                       "runs of >= 8 chunks - the finalized session hands no xorb to the store and reports new_bytes = new_chunks = 0; an unanswered slot is "
-                      "stored again, by example); that the real lookups answer every slot is the manager half above composed through the real session code, "
+                      "stored again, by example; C11_repeat_free_lookup composes this with a model of the first loop of process_chunks - validated against the real "
+                      "FileDeduper by the dedup.firstpass operations: same positions asked, same slots left, one and two passes - so the hypothesis becomes one on the "
+                      "lookup interface: every query that starts with a known chunk is answered with n >= 1 inside the query); that the real lookups answer every such query is the manager half above composed through the real session code, "
                       "checked on real multi-session stores (partial: that last composition is a monitor, not a theorem). The one way the code stores "
                       "a FOUND run again, fragmentation prevention, is delimited by theorems: nothing is rejected before 128 ranges were recorded, a run of "
                       ">= 8 chunks is never rejected, a short run after 128 one-chunk ranges is (the recorded finding of C11).",
